@@ -1179,6 +1179,32 @@ def check_C08(ck):
             cases.append(("repr%d/read_be" % nl, "repr %d read_be %s" % (nl, (be + b"\x07").hex()))); exp.append("%x" % a)
             cases.append(("repr%d/read_le" % nl, "repr %d read_le %s" % (nl, le.hex()))); exp.append("%x" % a)
         cases.append(("repr%d/read_be-short" % nl, "repr %d read_be %s" % (nl, bytes(8 * nl - 1).hex()))); exp.append("ERR:eof")
+        # Field::random on a replayed word stream (rejection sampling): candidates below / at / above the modulus, junk in the
+        # shaved top bits, several rejected candidates before an accepted one, stream exhausted (zeros follow)
+        def _rnd_spec(words):
+            pos, calls = 0, 0
+            nbits = p.bit_length()
+            while True:
+                ws = [(words[pos + i] if pos + i < len(words) else 0) for i in range(nl)]
+                pos += nl; calls += nl
+                c = sum(w << (64 * i) for i, w in enumerate(ws)) & ((1 << nbits) - 1)
+                if c < p:
+                    return "%x %d" % (c, calls)
+        def _words(v): return [(v >> (64 * i)) & ((1 << 64) - 1) for i in range(nl)]
+        M64 = (1 << 64) - 1
+        streams = []
+        for v in (0, 1, p - 1, p, p + 1, (1 << p.bit_length()) - 1, rng.randrange(p), rng.randrange(W)):
+            for junk in (0, 1, 2, 7 if p == Q else 1):
+                streams.append(("candidate-at-boundary", _words((v % (1 << p.bit_length())) | (junk << p.bit_length()) if (junk << p.bit_length()) < W else v)))
+        streams.append(("rejected-then-accepted", [M64] * nl + _words(p) + _words(p - 1) + [5]))
+        streams.append(("rejected-then-accepted", [M64] * (3 * nl) + _words(rng.randrange(p))))
+        streams.append(("stream-exhausted", [M64] * nl))
+        streams.append(("stream-exhausted", [M64] * (nl + 2)))
+        streams.append(("stream-exhausted", [3]))
+        for _ in range(6 if not thorough else 200):
+            streams.append(("random-stream", [rng.randrange(1 << 64) for _ in range(rng.randrange(1, 4 * nl))]))
+        for cls, ws in streams:
+            cases.append(("%s/random:%s" % (f, cls), "rnd %s %s" % (f, ",".join("%x" % w for w in ws)))); exp.append(_rnd_spec(ws))
         gen = 2 if p == Q else 7
         s2 = 1 if p == Q else 32
         cases.append(("%s/consts" % f, "consts %s" % f)); exp.append("%x %d %d %d %x %x" % (p, p.bit_length(), p.bit_length() - 1, s2, gen, pow(gen, (p - 1) >> s2, p)))
